@@ -146,19 +146,16 @@ Theorem zone_failure_only_when_every_server_failed : forall servers,
 Proof. exact zone_failure_needs_every_server_to_fail. Qed.
 Print Assumptions zone_failure_only_when_every_server_failed.
 
-(* FULL STATEMENT: for every error class e that is load shedding
-   (shed_load e = true), the handler's SERVFAIL is never recorded:
-     forall e, shed_load e = true -> request_local (handler_failure e) = true.
-   REFUTED on the current code: errResolutionCapacity / errZoneCapacity are not in
-   IsRequestLocalResolutionError, the response is unmarked, the cache records it
-   (finding shed-load-recorded; reproduced by the lab driver: the next query for the
-   same question is answered SERVFAIL + EDE 13 without a packet to the healthy authority). *)
-Theorem shed_load_not_recorded_refuted :
-  exists e, shed_load e = true /\ cacheable_failure (handler_failure e) = true /\
-    forall H c k now, fst (fst (st_record_failure H c (mk_store [] false) k prov_response now)) <> mk_store [] false ->
-      serve_writeback H c (mk_store [] false) k (DFail (handler_failure e)) now <> mk_store [] false.
-Proof. exact shed_load_recorded_witness. Qed.
-Print Assumptions shed_load_not_recorded_refuted.
+(* Shed load never becomes shared state: for every load-shedding error class
+   (resolver at global capacity, zone at quota, failure-probe limit) the
+   handler's SERVFAIL is request-local and its write-back — and the whole
+   serve step — leaves the store unchanged.  (Refuted before /repo 950da92,
+   former finding shed-load-recorded; the lab driver keeps the regression.) *)
+Theorem shed_load_not_recorded : forall H c s k e now,
+  shed_load e = true ->
+  serve_writeback H c s k (DFail (handler_failure e)) now = s /\ fst (serve H c s k (DFail (handler_failure e)) now) = s.
+Proof. exact shed_load_never_recorded. Qed.
+Print Assumptions shed_load_not_recorded.
 
 (* what does hold: every class IsRequestLocalResolutionError lists is kept out *)
 Theorem marked_error_classes_not_recorded : forall H c s k e now,
